@@ -9,6 +9,7 @@ let modes : (string * (string -> string)) list = [
   "ufs", Mode_ufs.check_line;
   "conc", Mode_conc.check_line;
   "clnt", Mode_clnt.check_line;
+  "ufstree", Mode_ufstree.check_line;
 ]
 
 let () =
